@@ -606,7 +606,8 @@ package table
 //@   claims at-call at-return
 // ... and the index holds the best path of every destination, whichever way the path that changed was learnt: when the
 // best path is a different one after the change (an ADD-PATH path in front of it was withdrawn, say), it is entered
-//@   at-return requires t.vpnIdx != nil && len(u.KnownPathList) > 0 && (len(u.OldKnownPathList) == 0 || u.OldKnownPathList[0] != u.KnownPathList[0]) ==> called(RegisterPath)
+//@   at-return requires t.vpnIdx != nil ==> called(RegisterPath)
+//@   at-call ^t.vpnIdx.RegisterPath(newBest) requires called(UnregisterPath)
 //@   at-call t.vpnIdx.RegisterPath( requires called(UnregisterPath)
 //@   at-call t.vpnIdx.UnregisterPath( requires !called(RegisterPath)
 //@ func CanImportToVrf
